@@ -73,6 +73,12 @@ CATALOGUE = [
     '<dtml-var va><dtml-var xi>,</dtml-in>',
     '<dtml-try><dtml-var fe><dtml-except ValueError>V<dtml-except OSError>O'
     '<dtml-except>other</dtml-try>|<dtml-var va>',
+    # a value returned from inside blocks, with finally parts on its way
+    '<dtml-with oa><dtml-try><dtml-return va><dtml-finally><dtml-var sk>'
+    '<dtml-var xo></dtml-try></dtml-with>',
+    '<dtml-in s3><dtml-let la=va><dtml-if sequence-end><dtml-try>'
+    '<dtml-return la><dtml-finally><dtml-var la></dtml-try></dtml-if>'
+    '</dtml-let></dtml-in>tail',
     # everything a handler can see of the error is the thread's own
     '<dtml-try><dtml-var fe><dtml-except><dtml-var error_type>:'
     '<dtml-var error_value>:<dtml-var error_tb></dtml-try>',
@@ -134,12 +140,19 @@ def sequential(src, syntax, spec):
         return ('exc', type(e).__name__)
 
 
-def run_schedule(src, syntax, specs, segments, cooked, only_files=None):
+def run_schedule(src, syntax, specs, segments, cooked, only_files=None,
+                 warm=None):
     from vf.sched import Sched
     reset_global_state()
     t = harness.make_template(src, syntax)
     if cooked:
         t.cook()
+    if warm is not None:
+        # the template has a history: it was rendered (alone) before
+        try:
+            call_for(t, POOL[warm])()
+        except Exception:
+            pass
     fns = [call_for(t, s) for s in specs]
     s = Sched(fns, segments, pkg_dirs(), only_files)
     res, steps = s.run()
@@ -213,7 +226,8 @@ def check_case(case):
     segs = [list(s) for s in case['segments']
             if s[0] < len(specs)]
     res, steps, at = run_schedule(case['src'], case['syntax'], specs, segs,
-                                  case['cooked'], case.get('only_files'))
+                                  case['cooked'], case.get('only_files'),
+                                  case.get('warm'))
     return judge(res, expected, at)
 
 
@@ -234,13 +248,16 @@ COOK_FILES = ('DT_String.py',)
 BLOCK_FILES = ('DT_With.py', 'DT_Let.py', 'DT_In.py', 'DT_InSV.py')
 
 
-def two_preemption_sweep(acc, src, i, j, first, budget):
+def two_preemption_sweep(acc, src, i, j, first, budget, files=None,
+                         warm=None):
     """Every placement of two preemptions at lines of the block tags' own
-    code: thread A stops inside a block, thread B stops inside the same
-    block, A finishes, B finishes."""
+    code (or of `files`): thread A stops inside a block, thread B stops
+    inside the same block, A finishes, B finishes."""
+    BLOCK_FILES = tuple(files) if files else globals()['BLOCK_FILES']
     specs = [POOL[i], POOL[j]]
     expected = [sequential(src, 'dtml', s) for s in specs]
-    res, steps, _ = run_schedule(src, 'dtml', specs, [], True, BLOCK_FILES)
+    res, steps, _ = run_schedule(src, 'dtml', specs, [], True, BLOCK_FILES,
+                                 warm)
     other = 1 - first
     total = max(1, steps[first] * steps[other])
     stride = 1
@@ -250,10 +267,13 @@ def two_preemption_sweep(acc, src, i, j, first, budget):
         for q in range(1, steps[other], stride):
             segs = [[first, p], [other, q], [first, -1]]
             res, st, at = run_schedule(src, 'dtml', specs, segs, True,
-                                       BLOCK_FILES)
+                                       BLOCK_FILES, warm)
             case = dict(src=src, syntax='dtml', ns=[i, j], segments=segs,
                         cooked=True, only_files=list(BLOCK_FILES))
-            acc.case(case, True, klass='two-preemptions-in-blocks',
+            if warm is not None:
+                case['warm'] = warm
+            acc.case(case, True, klass='two-preemptions-in-blocks'
+                     if not files else 'two-preemptions-in-call-path',
                      distinct_by_construction=True)
             bad = judge(res, expected, at)
             if bad:
@@ -332,6 +352,15 @@ def plan(tier, seed):
                                ns=[k % 4, (k + 1) % 4 + (1 if k == 3 else 0)],
                                first=first, budget=2500 if tier == 'quick'
                                else 60000))
+    # the call path itself (DT_String.py) of a template that was rendered
+    # before
+    for k, src in enumerate(TWO_PREEMPTION[:2] + ['<dtml-var va>|'
+                                                  '<dtml-var sk>']):
+        for first in (0, 1):
+            shards.append(dict(kind='two-preemptions', src=src,
+                               ns=[k % 4, (k + 1) % 4], first=first,
+                               budget=2500 if tier == 'quick' else 60000,
+                               files=list(COOK_FILES), warm=(k + 2) % 4))
     for p1 in range(1, 9):
         q = tier == 'quick'
         shards.append(dict(kind='cook-race', src='<dtml-var va>|'
@@ -354,7 +383,8 @@ def run_shard(shard):
     acc = Acc(ID, sample_every=997)
     if shard['kind'] == 'two-preemptions':
         two_preemption_sweep(acc, shard['src'], shard['ns'][0],
-                             shard['ns'][1], shard['first'], shard['budget'])
+                             shard['ns'][1], shard['first'], shard['budget'],
+                             shard.get('files'), shard.get('warm'))
         return acc.result()
     if shard['kind'] == 'cook-race':
         cook_race_sweep(acc, shard['src'], shard['ns'][0], shard['ns'][1],
